@@ -206,6 +206,7 @@ func runC20(c *kit.Ctx) {
 
 	c.StartRule("R2", "dial performed once per connection object", 4)
 	dialRunsUnderTheEstablishedRegion(c)
+	connectionWritesAreSerialised(c) // the one connection is shared: concurrent senders must not interleave their frames (the server drops a connection whose stream is garbled, and all its regions are dialled again)
 	lit, _ := onceLiteral(dial, dialOnce)
 	if lit == nil {
 		c.Bad(dial, "dial-once", dial.Pos(), "Dial no longer runs its body under dialOnce.Do", "")
@@ -328,6 +329,7 @@ func runC20(c *kit.Ctx) {
 	decodeErrorsKeepTheConnection(c)
 	clientDownOnlyWhenDead(c, hre, est)
 	deadConnectionIsTheFailedOne(c)
+	classificationGoesByClassName(c)
 	closedErrorOnlyWhenClosed(c)
 	exceptionTableOracle(c)
 	receiveRejectsOnlyMalformed(c)
